@@ -276,7 +276,7 @@ def judge_pattern(ctx, case):
 
 
 def run(ctx):
-    n = ctx.scale(5000, 200000)
+    n = ctx.scale(20000, 300000)
     for i in range(n):
         c = gen_case(ctx)
         ctx.run_case(judge, c)
@@ -285,7 +285,7 @@ def run(ctx):
     # patterns
     rng = ctx.rng
     names = INT_NAMES + ENDIAN_NAMES + STR_NAMES + FLOAT_NAMES + ['bytes', 'bool', 'bits']
-    for i in range(ctx.scale(20000, 300000)):
+    for i in range(ctx.scale(60000, 600000)):
         name = rng.choice(names)
         fam = family(name)
         if fam == 'bool':
